@@ -76,14 +76,14 @@ static std::string     fnFilter; // lattice mode: only report failures of this f
 //   ("branch" in these names = the branch REQUIRED for the reference dot; which branch the code really took is the branch probe's business)
 // Clean-tree maxima (seeds 1-3, sweep with 2 and 24 random mantissas per exponent; calibrated on /repo 16a5ca8 with the classes taken
 // from the REFERENCE dot and the dense / constructed threshold vectors included):
-//   length A 1.48  B 2.87  C 1.93  D 1.74  E 2.85 ulps;  unit 1.73 eps;  ratio 3.94 u.     (bounds = these + 1, rounded up to 0.1)
+//   length A 1.49  B 2.87  C 2.08  D 1.74  E 2.85 ulps;  unit 1.73 eps;  ratio 4.08 u   (maxima over every clean calibration run so far).     (bounds = these + 1, rounded up to 0.1)
 #ifndef LENGTH_BOUND_A
 #define LENGTH_BOUND_A 2.5
 #define LENGTH_BOUND_B 3.9
-#define LENGTH_BOUND_C 3.0
+#define LENGTH_BOUND_C 3.1
 #define LENGTH_BOUND_D 2.8
 #define UNIT_BOUND_V 2.8
-#define RATIO_BOUND_V 5.0
+#define RATIO_BOUND_V 5.1
 #endif
 static const double LENGTH_BOUND[5] = {LENGTH_BOUND_A, LENGTH_BOUND_B, LENGTH_BOUND_C, LENGTH_BOUND_D, LENGTH_BOUND_B};
 static const double UNIT_BOUND      = UNIT_BOUND_V;  // | ||r|| - 1 | in units of epsilon, normal norms only
@@ -113,6 +113,7 @@ template <class T> struct VecOf<T, 3> { typedef Vec3<T> type; };
 template <class T> struct VecOf<T, 4> { typedef Vec4<T> type; };
 
 struct Stat { double maxv = 0; long n = 0; std::string worst; };
+static const char* advTag = nullptr; // set while a NAMED adversarial class of the scaled branch is generated (two-maxima, max-subnormal)
 static std::map<std::string, Stat> stats; // key: metric|type|dim|class
 
 template <class T, int N> static std::string show (const typename VecOf<T, N>::type& v)
@@ -278,6 +279,7 @@ template <class T, int N> static void checkVector (const typename VecOf<T, N>::t
         {
             double err = (double) (fabsq ((Q) l - ref) / ulpAt<T> (ref));
             note (std::string ("length_ulps|") + ty + "|" + dim + "|" + CLASSNAME[cls], err, in);
+            if (advTag) note (std::string ("length_ulps_adv|") + ty + "|" + dim + "|" + advTag, err, in);
             if (err > lengthBound)
             {
                 char d[200]; snprintf (d, 200, "got=%a ref=%a err_ulps=%.3f bound=%.1f class=%s", (double) l, (double) ref, err, lengthBound, CLASSNAME[cls]);
@@ -331,6 +333,7 @@ template <class T, int N> static void checkVector (const typename VecOf<T, N>::t
         Q      rn   = normQ<T, N> (r);
         double uerr = (double) (fabsq (rn - 1) / (Q) std::numeric_limits<T>::epsilon ());
         note (std::string ("unit_err_eps|") + ty + "|" + dim + "|" + brName, uerr, in);
+        note (std::string ("unit_by_form|") + ty + "|" + dim + "|" + brName + "/" + FORM[form], uerr, in);
         if (uerr > UNIT_BOUND) { char d[160]; snprintf (d, 160, "|r|=1%+.3g err_eps=%.3f bound=%.1f out=", (double) (rn - 1), uerr, UNIT_BOUND); fail (fn, ty, "unit-length", in, d + show<T, N> (r)); }
         // ratio: r_i * ||v|| = v_i up to a few u (plus one denormal step when r_i is subnormal)
         Q u = ldexpq ((Q) 1, -Lim<T>::p);
@@ -341,6 +344,7 @@ template <class T, int N> static void checkVector (const typename VecOf<T, N>::t
             Q slack = ldexpq (ref, Lim<T>::eminSub ()); // one denormal step of r_i, scaled
             double q = (double) ((e > slack ? e - slack : 0) / (u * fabsq ((Q) v[i])));
             note (std::string ("ratio_err_u|") + ty + "|" + dim + "|" + brName, q, in);
+            note (std::string ("ratio_by_form|") + ty + "|" + dim + "|" + brName + "/" + FORM[form], q, in);
             if (q > RATIO_BOUND) { char d[160]; snprintf (d, 160, "component=%d err_u=%.3f bound=%.1f out=", i, q, RATIO_BOUND); fail (fn, ty, "ratio", in, d + show<T, N> (r)); break; }
         }
     }
@@ -401,6 +405,33 @@ template <class T, int N> static void sweepExponent (int e, int reps)
             }
             checkVector<T, N> (v);
         }
+        // NAMED adversarial classes of the scaled algorithm (audit r2 N6):
+        //  two-maxima: 2..N components equal to +-x (each |x_i|/max rounds to exactly 1, the sum of squares in lengthTiny is k + noise), the
+        //  rest x*2^-(p/2+j), j = -2..2, i.e. at the limit where (x_i/max)^2 drops below the last bit of the sum
+        for (int j = -2; j <= (N == 2 ? -2 : 2); ++j)
+        {
+            V   v;
+            int kk = N == 2 ? 2 : 2 + (int) (rng () % (unsigned) (N - 1));
+            int first = (int) (rng () % N);
+            T   small = std::ldexp (x, -(p / 2 + j));
+            for (int i = 0; i < N; ++i) v[i] = sgn (((i - first + N) % N) < kk ? x : small);
+            advTag = "two-maxima"; checkVector<T, N> (v); advTag = nullptr;
+        }
+        //  max-subnormal: the maximum is SUBNORMAL and the other components are pred(max) / max/2 / denorm_min: |x_i|/max is 1 - ulp-ish or
+        //  a coarse fraction, and max*sqrt(s) is rounded in the subnormal range (may not round to 0, may not be NaN/inf through 1/max)
+        if (e < Lim<T>::eminNormal ())
+            for (int c = 0; c < 4; ++c)
+            {
+                V   v;
+                int pos = (int) (rng () % N);
+                for (int i = 0; i < N; ++i)
+                {
+                    int w = c < 3 ? c : (int) (rng () % 3);
+                    T   o = w == 0 ? std::nextafter (x, T (0)) : w == 1 ? x / T (2) : std::numeric_limits<T>::denorm_min ();
+                    v[i]  = sgn (i == pos ? x : o);
+                }
+                advTag = "max-subnormal"; checkVector<T, N> (v); advTag = nullptr;
+            }
         // signed zeros mixed with two non-zero components
         if (N > 2)
         {
@@ -643,13 +674,13 @@ template <int N> static void exhaustiveBlock (int family, int pos, unsigned lo, 
     }
 }
 
-template <int N> static void exhaustiveFamily (int family, int pos, int nthreads, unsigned stride)
+template <int N> static void exhaustiveFamily (int family, int pos, int nthreads, unsigned stride, unsigned offset)
 {
     const unsigned first = 1, last = 0x7EFFFFFFu; // smallest subnormal .. max/2
-    const unsigned block = 1u << 20;
+    const unsigned block = stride > 1 ? (1u << 14) : (1u << 20); // slice mode: blocks of 2^14 floats, so every binade (2^23 floats) is visited 512/stride times
     std::vector<ExStat> sts (nthreads);
     std::vector<std::thread> th;
-    std::atomic<unsigned long> next (first);
+    std::atomic<unsigned long> next ((unsigned long) first + (unsigned long) block * (offset % stride));
     for (int t = 0; t < nthreads; ++t)
         th.emplace_back ([&, t] () {
             for (;;)
@@ -657,7 +688,7 @@ template <int N> static void exhaustiveFamily (int family, int pos, int nthreads
                 unsigned long lo = next.fetch_add ((unsigned long) block * stride);
                 if (lo > last) break;
                 unsigned long hi = std::min<unsigned long> (lo + block, (unsigned long) last + 1);
-                exhaustiveBlock<N> (family, pos, (unsigned) lo, (unsigned) hi, ((lo - first) / block) % 8 == 0, sts[t]);
+                exhaustiveBlock<N> (family, pos, (unsigned) lo, (unsigned) hi, ((lo - first) / block / stride) % 8 == 0, sts[t]);
             }
         });
     for (auto& t : th) t.join ();
@@ -686,13 +717,14 @@ int main (int argc, char** argv)
     }
     else if (mode == "exhaustive")
     {
-        // exhaustive <threads> [stride]: stride > 1 visits every stride-th block of 2^20 consecutive floats (smoke test only)
+        // exhaustive <threads> [stride [offset]]: stride > 1 = SLICE: of the blocks of 2^14 consecutive floats, block number b is visited iff
+        // b % stride == offset % stride (quick tier: stride 64, offset = seed, so successive seeds cover different floats)
         int      nth    = argc > 3 ? atoi (argv[3]) : (int) std::thread::hardware_concurrency ();
-        unsigned stride = argc > 4 ? (unsigned) atoi (argv[4]) : 1;
+        unsigned stride = argc > 4 ? (unsigned) atoi (argv[4]) : 1, offset = argc > 5 ? (unsigned) atoi (argv[5]) : 0;
         if (nth < 1) nth = 1;
         if (stride < 1) stride = 1;
-        exhaustiveFamily<2> (0, 0, nth, stride); exhaustiveFamily<3> (0, 1, nth, stride); exhaustiveFamily<4> (0, 3, nth, stride);
-        exhaustiveFamily<2> (1, 0, nth, stride); exhaustiveFamily<3> (1, 0, nth, stride); exhaustiveFamily<4> (1, 0, nth, stride);
+        exhaustiveFamily<2> (0, 0, nth, stride, offset); exhaustiveFamily<3> (0, 1, nth, stride, offset); exhaustiveFamily<4> (0, 3, nth, stride, offset);
+        exhaustiveFamily<2> (1, 0, nth, stride, offset); exhaustiveFamily<3> (1, 0, nth, stride, offset); exhaustiveFamily<4> (1, 0, nth, stride, offset);
     }
     else
     {
